@@ -101,6 +101,13 @@ def configs(tier):
     return out
 
 
+def parse_dict(text):
+    """the gamma-k column of the CSV output is the text of a dict of floats; non-finite floats print as nan / inf / -inf
+    (a category whose chance categorical disorder is 0), which are not Python literals"""
+    return eval(compile(ast.parse(text, mode="eval"), "<gamma-k>", "eval"),  # noqa - own output, names restricted below
+                {"__builtins__": {}, "nan": float("nan"), "inf": float("inf")})
+
+
 def write_one(d, name, cfg):
     if cfg["fmt"] == "csv":
         p = os.path.join(d, name + ".csv")
@@ -204,7 +211,7 @@ def run_cli(pa, cfg, paths, outpath):
             for row in rows[1:]:
                 r = {}
                 for lab, val in zip(header[1:], row[1:]):
-                    r[lab] = {kk: float(vv) for kk, vv in ast.literal_eval(val).items()} if lab == "gamma-k" else float(val)
+                    r[lab] = {kk: float(vv) for kk, vv in parse_dict(val).items()} if lab == "gamma-k" else float(val)
                 results[row[0]] = r
         else:
             data = json.load(open(outpath))
@@ -223,9 +230,11 @@ def run_api(pa, cfg, paths):
         c = pa.Continuum.from_csv(p, delimiter=cfg["s"]) if cfg["fmt"] == "csv" else pa.Continuum.from_rttm(p)
         cat = None
         if cfg["d"] == "levenshtein":
-            cat = pa.LevenshteinCategoricalDissimilarity(c.categories)
+            cat = pa.LevenshteinCategoricalDissimilarity(list(c.categories), delta_empty=cfg["e"])
         elif cfg["d"] == "numerical":
-            cat = pa.NumericalCategoricalDissimilarity(c.categories)
+            cat = pa.NumericalCategoricalDissimilarity(list(c.categories), delta_empty=cfg["e"])
+        # the API user states delta_empty on every object they build (a copy of the category list, not the live set):
+        # the reference does not depend on the combined dissimilarity re-synchronising its component
         d = pa.CombinedCategoricalDissimilarity(alpha=cfg["a"], beta=cfg["b"], delta_empty=cfg["e"], cat_dissim=cat)
         sampler = pa.ShuffleContinuumSampler() if cfg["m"] else None
         kw = {"precision_level": 0.05, "n_samples": 30} if cfg.get("defaults") else \
